@@ -351,11 +351,19 @@ def run(project, chk):
         f11 = project.func(q11)
         c11 = build_cfg(f11.node)
         G11 = _gs(c11)
+        from sa.wire import Origins as _O11
+        o11 = _O11(project, f11, c11)
+        ret_origins = {}
+        for n11 in c11.nodes:
+            if n11.kind == "return":
+                ret_origins[n11.id] = o11.of(n11.id, n11.ast.value) if n11.ast.value is not None else ("const", None)
         for n11 in c11.nodes:
             if n11.kind != "return":
                 continue
             lits = _cl(G11.get(n11.id))
             dep = sorted(t for (t, v) in lits if any(w in ("show", "save_report") for w in t.replace("(", " ").replace(")", " ").replace(",", " ").split()))
+            if dep and any(k != n11.id and ret_origins[k] == ret_origins[n11.id] for k in ret_origins):
+                dep = []        # an early `return result` when nothing is to be drawn: the very value the full path returns
             chk.check(not dep, "R11", f11.short, norm_text(n11.ast)[:80], project.loc(f11.module, n11.ast), "the return is reached whatever show / save_report are",
                       how=f"guards on every path: {sorted(t for t, v in lits)[:6]}",
                       message=f"`{norm_text(n11.ast)[:60]}` is reached only when `{dep[0] if dep else ''}` has a particular value: with show / save_report the call returns something else than without")
